@@ -7,6 +7,8 @@ class Inv:
         self.name, self.callid, self.args, self.blobs = name, callid, list(args), list(blobs)
         self.sid, self.positive, self.has_sub = sid, positive, has_sub
         self.cfg = cfg or {}     # {slot: value} overrides of the configuration vector
+        self.dids = None         # None = the shared tables of callreg_ext
+        self.ios = None
 
 
 def invocations():
